@@ -297,6 +297,7 @@ func (hv *PHdrVals) Reset() {
 	hv.CSeq.Reset()
 	hv.CLen.Reset()
 	hv.Contacts.Reset()
+	hv.PAIs.Reset()
 	hv.Expires.Reset()
 }
 
